@@ -204,13 +204,13 @@ def jobs_for(tier, seed):
     vec_full, vec_single = (6, 8) if quick else (9, 9)
     for n in range(0, vec_single + 1):
         for cols in patterns(n, 1):
-            for m, l in (full if n <= vec_full else singles + [(p, None) for p in rng.sample(PAIRS, 4)]):
+            for m, l in (full if n <= vec_full else singles + [(p, None) for p in rng.sample(PAIRS, 2)]):
                 jobs.append(dict(cols=cols, frame=False, method=m, limit=l))
     frm_full, frm_max = (3, 5) if quick else (5, 5)
     for n in range(0, frm_max + 1):
         pats = list(patterns(n, 2))
         if n > frm_full:
-            pats = rng.sample(pats, 40 if n == 4 else 30)
+            pats = rng.sample(pats, 30 if n == 4 else 20)
         for cols in pats:
             for m, l in (full if n <= 2 or not quick else singles + [(p, None) for p in rng.sample(PAIRS, 6)]):
                 jobs.append(dict(cols=cols, frame=True, method=m, limit=l))
@@ -229,8 +229,8 @@ def run(tier, seed):
                   'length 0..%d%s; each case runs on the Series/DataFrame (daily DatetimeIndex) and on its numpy array; clauses: values = explicit-loop oracle, '
                   'surviving rows, non-NaN cells unchanged, array result == pandas .values, input unmodified. Distinct by (pattern, frame?, method, limit); '
                   'non-trivial when the pattern contains at least one NaN'
-                  % (b['vec_full'], '' if not quick else '; lengths 7-%d with the single methods and 4 seeded lists' % b['vec_single'], b['frm_full'],
-                     '' if not quick else ' (lengths 4-5: 40/30 seeded patterns; lengths 3-5: single methods and 6 seeded lists)'),
+                  % (b['vec_full'], '' if not quick else '; lengths 7-%d with the single methods and 2 seeded lists' % b['vec_single'], b['frm_full'],
+                     '' if not quick else ' (lengths 4-5: 30/20 seeded patterns; lengths 3-5: single methods and 6 seeded lists)'),
                   exhaustive=not quick, scope='vectors of length <= %d, two-column frames of length <= %d, cells in {position code, NaN}, limit in {None,1,2,3}' % (
                       b['vec_single'] if quick else b['vec_full'], b['frm_max']))
     if quick:
